@@ -328,7 +328,7 @@ PROPS = {
         'level_text': 'Full proof over R: every step of (0-based) loop l runs at kt_start * factor^l (constant within a loop, one multiplication between loops); factor = 1 - kt_ratio when a ratio is given; otherwise kt_start * factor^L = kt_finish for the L = steps/inner_steps loops of the run, so the last loop runs at kt_finish/factor; a zero start stays zero.',
         'level_note': 'Trusted: Lean kernel + 3 axioms; Real.rpow for powf; build/optimise model tied by bit-exact opt runs (the acceptance pattern of every run depends on kt per loop).',
         'technique': 'Lean 4 proof (Real.rpow) + run invariant + bit-exact differential correspondence',
-        'theorems': ['Proofs.C18', 'Proofs.TieBuild'],
+        'theorems': ['Proofs.C18', 'Proofs.TieBuild', 'Proofs.TieLoopTail'],
         'families': [('opt', 1500, 30000)],
         'search': (10, 240),
         'rule': 'opt as for C05; search: schedule monitor — for every visibly decided worse move the decision must equal thr < exp(-d/kT_l) with kT_l from the SPECIFIED schedule and thr re-drawn with the real rand crate (multi-loop configurations, score differences of the order of kT)',
@@ -339,7 +339,7 @@ PROPS = {
         'level_text': 'Full proof over R: a sample is within step*range/2 of the value, clamping never moves further from an in-range value, the adaptive ratio stays in (0,1] for every rejection history, hence every proposal of every loop changes exactly one cell by at most max_step_size*(max-min)/2.',
         'level_note': 'Trusted: Lean kernel + 3 axioms; draw in [-1/2,1/2) (rand gen_range, pinned by rng family).',
         'technique': 'Lean 4 invariant proof over runs + bit-exact differential correspondence',
-        'theorems': ['Proofs.C19', 'Proofs.C07Draw', 'Proofs.TieBasis', 'Proofs.DeclBasis'],
+        'theorems': ['Proofs.C19', 'Proofs.C07Draw', 'Proofs.TieBasis', 'Proofs.DeclBasis', 'Proofs.TieLoopTail'],
         'families': [('basis', 1000, 20000), ('opt', 1500, 30000), ('rng', 300, 6000)],
         'search': (10, 240),
         'rule': 'opt as for C05 with multi-loop configurations and all rejection rates; search: per-proposal step-bound monitor on recorded real histories',
@@ -351,7 +351,7 @@ PROPS = {
         'level_text': 'Proof: termination is structural; build never yields inner_steps = 0; without convergence exactly (steps/inner)*inner proposals (<= steps, > steps - inner); any run evaluates whole loops and at most steps; the run with a threshold is a prefix of the run without; an early exit implies the last six loops each gained less than the threshold; from a valid input no panic site of optimise_state is reachable. Partial: the CLI clause (exit status / files) is checked by the cli correspondence, argument parsing (structopt/clap) is trusted.',
         'level_note': 'Trusted: panic sites of optimise_state are enumerated by hand in the model (PanicSite) and tied by the opt family comparing panic/ok outcomes incl. panic site names; Lean kernel + 3 axioms.',
         'technique': 'Lean 4 structural induction over the optimiser loops + differential correspondence of outcomes',
-        'theorems': ['Proofs.C20', 'Proofs.TieBuild'],
+        'theorems': ['Proofs.C20', 'Proofs.TieBuild', 'Proofs.TieLoopTail'],
         'families': [('opt', 2000, 40000)],
         'search': (10, 240),
         'rule': 'opt as for C05 over steps/inner in {0,1,2,3,7,...} incl. non-multiples and inner > steps; search: work-bound and six-loop monitors, prefix oracle (same run with and without threshold), catch_unwind around every run',
